@@ -1021,6 +1021,27 @@ def check_tables(chk):
                       {"impl": sorted(HTTP_METHODS), "expected": sorted(G.HTTP)})
 
 
+def coverage_targets_mixed_case(chk):
+    """finding FC07a (fixed): a path item whose method keys are written in upper case.  The operation is offered (and can be
+    excluded) like any other; the coverage cases of its siblings must not reach it as an 'unspecified method'."""
+    raw = {"openapi": "3.0.2", "info": {"title": "t", "version": "1"}, "paths": {"/a": {
+        "GET": {"responses": {"200": {"description": "ok"}}}, "delete": {"responses": {"200": {"description": "ok"}}},
+        "Post": {"responses": {"200": {"description": "ok"}}}}}}
+    for excl in (None, "GET", "POST"):
+        schema = schemathesis.openapi.from_dict(raw)
+        if excl:
+            schema = schema.exclude(method=excl)
+        offered = labels_of(schema)
+        for label, targets in coverage_targets(schema):
+            chk.case("coverage-targets:mixed-case-method-keys", key=[excl, label], nontrivial=True, sample={"excluded": excl, "op": label, "targets": targets})
+            for t in targets:
+                if t != label and t.split(" ")[0] in ("GET", "DELETE", "POST"):
+                    chk.violation("C07:coverage:request-to-a-documented-operation-other-than-the-one-under-test",
+                                  f"the coverage cases built for {label} include a request {t}: the path item documents it "
+                                  f"(method key in upper / mixed case); offered operations: {offered}",
+                                  {"doc": raw, "excluded_method": excl, "operation": label, "target": t})
+
+
 def run(chk):
     rng = chk.rng
     preds = G.make_preds()
@@ -1030,6 +1051,7 @@ def run(chk):
     variants = detect_variants(chk, cases["A"])
     chk.variants.update({"pytest.lazy.get_schema": variants["lazy"], "_measure_statistic": variants["statistic"]})
     check_tables(chk)
+    coverage_targets_mixed_case(chk)
     # 1. corpus: witnesses of the known findings and minimised past disagreements run first
     judge(chk, cases["A"], [WITNESS_LAZY, WITNESS_STAT], "witness", reg, variants)
     for f in sorted((ROOT / "corpus" / "C07").glob("*.json")):
